@@ -42,8 +42,52 @@ Lemma db_methods_present :
   In LM_DictionaryDataBase_get ldm_methods_DictionaryDataBase /\ LM_DictionaryDataBase_get <> [].
 Proof. vm_compute. repeat split; try discriminate; tauto. Qed.
 
+(* the IF.LDM.3 / IF.LDM.4 calls (per configuration): compositions of the sections above, some of them inside a section
+   of the service's state lock *)
+Lemma ldm_if_summary_well_locked : forallb (wl ldm_policy []) ldm_if_summary = true.
+Proof. vm_compute. reflexivity. Qed.
+
+Lemma ldm_if_summary_lock_order : forallb (ordr ldm_rank ldm_reent []) ldm_if_summary = true.
+Proof. vm_compute. reflexivity. Qed.
+
+(* check-then-act calls of the interfaces are ONE outermost section of the service's state lock: the registration is read
+   and the store / the subscription table written without the lock being released in between *)
+Definition ldm_if_single_sections : list (list action) :=
+  [LM_InterfaceLDM3_Thread_add_provider_data; LM_InterfaceLDM3_Reactive_add_provider_data;
+   LM_InterfaceLDM4_Thread_subscribe_data_consumer; LM_InterfaceLDM4_Reactive_subscribe_data_consumer].
+
+Lemma if_check_then_act_single_section :
+  forallb (one_section 3) ldm_if_single_sections = true /\
+  forallb (fun m => touches (Rd 4) m && touches (Wr 0) m)        (* provider registry read, store written *)
+          [LM_InterfaceLDM3_Thread_add_provider_data; LM_InterfaceLDM3_Reactive_add_provider_data] = true /\
+  forallb (fun m => touches (Rd 5) m && touches (Wr 6) m)        (* consumer registry read, subscriptions written *)
+          [LM_InterfaceLDM4_Thread_subscribe_data_consumer; LM_InterfaceLDM4_Reactive_subscribe_data_consumer] = true /\
+  Forall (fun m => In m ldm_if_summary) ldm_if_single_sections.
+Proof.
+  split; [vm_compute; reflexivity|]. split; [vm_compute; reflexivity|]. split; [vm_compute; reflexivity|].
+  unfold ldm_if_single_sections, ldm_if_summary.
+  repeat (apply Forall_cons; [repeat (apply in_or_app; first [left; cbv delta [ldm_methods_InterfaceLDM3_Thread
+    ldm_methods_InterfaceLDM3_Reactive ldm_methods_InterfaceLDM4_Thread ldm_methods_InterfaceLDM4_Reactive];
+    cbn [In]; solve [repeat (first [left; reflexivity | right])] | right]);
+    cbv delta [ldm_methods_InterfaceLDM4_Reactive]; cbn [In]; solve [repeat (first [left; reflexivity | right])]|]).
+  apply Forall_nil.
+Qed.
+
+Definition ldm_all_summary : list (list action) := ldm_summary ++ ldm_if_summary.
+
+(* a thread runs any sequence of methods of the LDM classes and of interface calls *)
 Definition from_ldm_summary (progs : list (list action)) : Prop :=
-  Forall (fun p => exists ms, Forall (fun m => In m ldm_summary) ms /\ p = concat ms) progs.
+  Forall (fun p => exists ms, Forall (fun m => In m ldm_all_summary) ms /\ p = concat ms) progs.
+
+Lemma ldm_all_summary_well_locked : forallb (wl ldm_policy []) ldm_all_summary = true.
+Proof.
+  unfold ldm_all_summary. rewrite forallb_app, ldm_summary_well_locked, ldm_if_summary_well_locked. reflexivity.
+Qed.
+
+Lemma ldm_all_summary_lock_order : forallb (ordr ldm_rank ldm_reent []) ldm_all_summary = true.
+Proof.
+  unfold ldm_all_summary. rewrite forallb_app, ldm_summary_lock_order, ldm_if_summary_lock_order. reflexivity.
+Qed.
 
 Lemma ordr_app rank reent a : forall held b p, wl p held a = true -> ordr rank reent held a = true ->
   ordr rank reent [] b = true -> ordr rank reent held (a ++ b) = true.
@@ -61,7 +105,7 @@ Qed.
 Lemma from_ldm_summary_checks progs : from_ldm_summary progs ->
   forallb (wl ldm_policy []) progs = true /\ forallb (ordr ldm_rank ldm_reent []) progs = true.
 Proof.
-  intros H. pose proof ldm_summary_well_locked as W. pose proof ldm_summary_lock_order as O.
+  intros H. pose proof ldm_all_summary_well_locked as W. pose proof ldm_all_summary_lock_order as O.
   rewrite forallb_forall in W, O. unfold from_ldm_summary in H. rewrite Forall_forall in H. split.
   - apply forallb_forall. intros p Hp. destruct (H p Hp) as (ms & Hms & ->). rewrite Forall_forall in Hms.
     apply wl_concat. apply forallb_forall. intros m Hm. apply W, Hms, Hm.
